@@ -12,10 +12,10 @@ def wait(deferred):
     return deferred
 
 
-# Values that were multiplied by zero. Such a value vanishes from the polynomial
-# it is a term of and would never be evaluated, and an error its evaluation
-# reports (e.g. division by zero) would be lost with it; the compiler evaluates
-# them once everything else is known.
+# Values whose coefficient in a linear polynomial became zero (multiplied by
+# zero, or cancelled). Such a value vanishes from the polynomial and would never
+# be evaluated, and an error its evaluation reports (e.g. division by zero) would
+# be lost with it; the compiler evaluates them once everything else is known.
 zero_terms = []
 
 
@@ -156,12 +156,7 @@ class BaseDeferred(metaclass=BaseDeferredMetaclass):
             estimate = self.get_current_best_estimate()
             if estimate is not self:
                 return estimate * rhs
-            def product():
-                coefficient = wait(rhs)
-                if coefficient == 0:
-                    zero_terms.append(self)
-                return LinearPolynomial[self.typ]({self: coefficient})
-            return Deferred[self.typ](product)
+            return Deferred[self.typ](lambda: LinearPolynomial[self.typ]({self: wait(rhs)}))
         else:
             raise TypeError(f"Don't know how to multiply {self.typ.__name__}")
 
@@ -170,8 +165,6 @@ class BaseDeferred(metaclass=BaseDeferredMetaclass):
             estimate = self.get_current_best_estimate()
             if estimate is not self:
                 return lhs * estimate
-            if lhs == 0:
-                zero_terms.append(self)
             return LinearPolynomial[self.typ]({self: lhs})
         else:
             raise TypeError(f"Don't know how to multiply {self.typ.__name__}")
@@ -249,6 +242,7 @@ class LinearPolynomial(BaseDeferred):
                 raise TypeError("LinearPolynomial variable cannot be a linear polynomial itself")  # pragma: no cover
             if not isinstance(value, int):  # pragma: no cover
                 raise TypeError(f"LinearPolynomial coefficient has an invalid type {type(value).__name__}")
+        zero_terms.extend(key for key, value in self.coeffs.items() if value == 0)
         self.coeffs = {key: value for key, value in self.coeffs.items() if value != 0}
         self.constant_term = constant_term
         if not isinstance(constant_term, int):  # pragma: no cover
